@@ -152,3 +152,14 @@ add("C19", "boundary monitor on the CLI profile (file text read back through "
     "Preprocessing answers restricted to valid orders containing "
     "compute_tip_position; batch fits judged only for profiles whose "
     "interval fits every curve of the folder.")
+add("C20", "loader / map monitor on harness-written files with known layout "
+    "(folders, multi-curve files, maps in shuffled scan order with a known "
+    "modulus per pixel) and recorded files: object count/order/class, "
+    "progress callback sequence, group refusal, map pixels recomputed from "
+    "each curve's current fit properties and rating after random "
+    "fit/rate/refit/reprocess operations",
+    "Held on the files, folders and ~29000 map pixels observed per quick "
+    "run, including maps with missing pixels and the five recorded maps.",
+    "File order = the order in which afmformats enumerates the file; pixel "
+    "addressed by the 'grid index' metadata; overrides tested on JPK files "
+    "(afmformats does not implement them for HDF5).")
